@@ -9,7 +9,43 @@ import json, os, shutil, subprocess, sys, tempfile
 ROOT = os.path.dirname(os.path.dirname(os.path.abspath(__file__)))
 REPO = os.environ.get("VERIF_REPO", "/repo")
 
+FILE_PROPS = [("numbat/src/list.rs", ["C18"]), ("numbat/src/ffi/lists.rs", ["C18", "C09"]), ("numbat/src/quantity.rs", ["C11", "C12", "C21"]),
+              ("numbat/src/unit.rs", ["C11", "C12"]), ("numbat/src/lib.rs", ["C06", "C02"]), ("numbat/src/ffi/procedures.rs", ["C21"]),
+              ("numbat/src/html_formatter.rs", ["C20"]), ("numbat/src/markup.rs", ["C20"]), ("numbat/src/vm.rs", ["C09", "C11", "C12"]),
+              ("numbat/src/bytecode_interpreter.rs", ["C09"])]
+
+
+def harmless():
+    """selftest/harmless/*.diff are behaviour-preserving refactorings written by independent sub-agents:
+    no check may answer VIOLATION on them (OK or UNDECIDED are both acceptable)."""
+    import glob
+    bad = 0
+    for d in sorted(glob.glob(os.path.join(ROOT, "selftest", "harmless", "*.diff"))):
+        text = open(d).read()
+        props = sorted({p for f, ps in FILE_PROPS if f in text for p in ps})
+        tmp = tempfile.mkdtemp(prefix="vx-harmless-", dir="/tmp")
+        try:
+            for sub in ("numbat/src", "numbat-cli/src"):
+                shutil.copytree(os.path.join(REPO, sub), os.path.join(tmp, sub))
+            r = subprocess.run(["patch", "-p1", "-s", "-i", d], cwd=tmp, stdout=subprocess.PIPE, stderr=subprocess.STDOUT, text=True)
+            if r.returncode != 0:
+                print(f"SKIP {os.path.basename(d)}: does not apply to the current tree"); continue
+            res = []
+            for p in props:
+                env = dict(os.environ, VERIF_REPO=tmp, VERIF_OUT=os.path.join(tmp, "out"))
+                c = subprocess.run([os.path.join(ROOT, "check"), p], env=env, stdout=subprocess.PIPE, stderr=subprocess.STDOUT, text=True)
+                res.append(f"{p}:{'OK' if c.returncode == 0 else 'VIOLATION' if c.returncode == 1 else 'UNDECIDED'}")
+                bad += 1 if c.returncode == 1 else 0
+            print(("ALARM " if any('VIOLATION' in x for x in res) else "ok    ") + os.path.basename(d) + "  " + " ".join(res))
+        finally:
+            shutil.rmtree(tmp, ignore_errors=True)
+    print(f"harmless: {bad} false alarms")
+    return 1 if bad else 0
+
+
 def main():
+    if "--harmless" in sys.argv:
+        return harmless()
     muts = json.load(open(os.path.join(ROOT, "selftest", "mutations.json")))
     sel = set(sys.argv[1:])
     bad = 0
